@@ -22,6 +22,10 @@ func subjects(name, bounds string) []gen.Subject {
 		return append(gen.Snippets(), append(gen.CallGraphShapes(2, 3), gen.CallGraphShapes(3, 1)...)...)
 	case "snippets":
 		return gen.Snippets()
+	case "dispatch":
+		var d int
+		fmt.Sscanf(bounds, "d%d", &d)
+		return gen.DispatchFamily(d)
 	case "cg2d1":
 		return gen.CallGraphShapes(2, 1)
 	case "cg2d2":
